@@ -153,6 +153,12 @@ type Spec struct {
 	RtMinPoolExtra uint16 `json:"rt_min_pool_extra"`
 	RtValidatorSet bool   `json:"rt_validator_set"`
 	RtOwnStake     bool   `json:"rt_own_stake"`
+	// RtUpgradeAt: 0 = one deployment (version 0.0.0); n > 0 = a second deployment (version 0.1.0) valid from epoch
+	// base-1+n (so n = 1 is already active at genesis); RtNewestFirst lists the newer deployment first in the descriptor.
+	// NodeRtVer[i][j]: which versions node j of entity i registers for: 1 old, 2 new, 3 both (0 = both).
+	RtUpgradeAt   uint64  `json:"rt_upgrade_at"`
+	RtNewestFirst bool    `json:"rt_newest_first"`
+	NodeRtVer     [][]int `json:"node_rt_versions"`
 	// RtSlash: the runtime's slash amount for equivocation (0 = the runtime does not slash); RtMaxInMsgs: size of the
 	// runtime's incoming message queue (0 = disabled).
 	RtSlash     uint64 `json:"rt_slash"`
@@ -526,7 +532,7 @@ func BuildGenesis(spec *Spec) (*World, error) {
 				},
 			},
 			GovernanceModel: registry.GovernanceEntity,
-			Deployments:     []*registry.VersionInfo{{}},
+			Deployments:     rtDeployments(spec),
 			Staking: registry.RuntimeStakingParameters{
 				RewardSlashEquvocationRuntimePercent: 50,
 			},
@@ -565,6 +571,21 @@ func BuildGenesis(spec *Spec) (*World, error) {
 }
 
 func cborV(v uint16) cbor.Versioned { return cbor.NewVersioned(v) }
+
+// RtNewVersion is the version of the runtime's second deployment.
+var RtNewVersion = version.Version{Minor: 1}
+
+func rtDeployments(spec *Spec) []*registry.VersionInfo {
+	old := &registry.VersionInfo{}
+	if spec.RtUpgradeAt == 0 {
+		return []*registry.VersionInfo{old}
+	}
+	nu := &registry.VersionInfo{Version: RtNewVersion, ValidFrom: beacon.EpochTime(spec.RtUpgradeAt)} // base epoch is 1
+	if spec.RtNewestFirst {
+		return []*registry.VersionInfo{nu, old}
+	}
+	return []*registry.VersionInfo{old, nu}
+}
 
 func constraints(spec *Spec, group uint16) registry.SchedulingConstraints {
 	c := registry.SchedulingConstraints{MinPoolSize: &registry.MinPoolSizeConstraint{Limit: group + spec.RtMinPoolExtra}}
@@ -638,6 +659,23 @@ func (w *World) NodeDescriptorWithRoles(ek *EntityKeys, nk *NodeKeys, expiration
 	}
 	if roles&node.RoleComputeWorker != 0 && w.Runtime != nil {
 		nd.Runtimes = []*node.Runtime{{ID: w.Runtime.ID}}
+		if w.Spec.RtUpgradeAt > 0 {
+			ver := 3
+			for i, e := range w.Entities {
+				for j, n := range e.Nodes {
+					if n == nk && i < len(w.Spec.NodeRtVer) && j < len(w.Spec.NodeRtVer[i]) && w.Spec.NodeRtVer[i][j] != 0 {
+						ver = w.Spec.NodeRtVer[i][j]
+					}
+				}
+			}
+			nd.Runtimes = nil
+			if ver&1 != 0 {
+				nd.Runtimes = append(nd.Runtimes, &node.Runtime{ID: w.Runtime.ID})
+			}
+			if ver&2 != 0 {
+				nd.Runtimes = append(nd.Runtimes, &node.Runtime{ID: w.Runtime.ID, Version: RtNewVersion})
+			}
+		}
 	}
 	return nd
 }
